@@ -48,15 +48,16 @@ def run(chk):
     chk.extra['rule'] = ('k independent sleeping steps for k=2..%d with pools 1..k+1; root + w parallel steps + sink (w=3..%d) with every pool 1..w, '
                          'edges realised as explicit step dependencies or output-file/dependency-file or output-file/glob pairs, a few failing steps; '
                          'random DAGs on 3..%d steps with random pools and when-options. Every case is run once on the hook-free binary (journal oracle) '
-                         'and once on the hook build with seeded schedule perturbation (journal oracle + trace validated against the model). '
+                         'and 3 (quick) / 6 (thorough) times on the hook build with different seeded schedule perturbations (journal oracle + trace validated against the model). '
                          'Non-trivial: >= 2 steps, an edge or pool < number of steps, at least one command executed.') % ((6, 4, 6) if quick else (8, 6, 8))
     sc.run_family(ctx, 'pool/plain', cases, OWN, hook=False)
     if ctx.xvc_hook:
         hooked = []
-        for k, c in enumerate(cases):
-            c2 = dict(c)
-            c2['sched'] = f'{chk.seed * 7919 + k}:{chk.rng.choice([0, 300, 2000])}'
-            hooked.append(c2)
+        for rep in range(3 if quick else 6):          # several schedules per pipeline
+            for k, c in enumerate(cases):
+                c2 = dict(c)
+                c2['sched'] = f'{chk.seed * 7919 + 1000 * rep + k}:{chk.rng.choice([0, 300, 2000, 8000])}'
+                hooked.append(c2)
         sc.run_family(ctx, 'pool/hook', hooked, OWN, hook=True)
     return chk.finish()
 
